@@ -770,5 +770,9 @@ fn get_max_packet_points(prototype: &[Record]) -> usize {
     let headers_size = DataPacketHeader::SIZE + bs_size_headers;
     let max_incomplete_bytes = prototype.len();
     let u16_max = u16::MAX as usize;
+    if point_size_bits == 0 {
+        // Points without any stored bits (all records have min=max) do not occupy packet space
+        return u16_max;
+    }
     ((u16_max - headers_size - max_incomplete_bytes - SAFETY_MARGIN) * 8) / point_size_bits
 }
